@@ -28,7 +28,8 @@ from guppylang_internals.checker.core import (FieldAccess, SubscriptAccess, Tupl
 from guppylang_internals.definition.custom import CustomFunctionDef  # noqa: E402
 from guppylang_internals.engine import ENGINE  # noqa: E402
 from guppylang_internals.error import GuppyError  # noqa: E402
-from guppylang_internals.nodes import GlobalCall, LocalCall, PlaceNode  # noqa: E402
+from guppylang_internals.nodes import (FieldAccessAndDrop, GlobalCall, LocalCall, PlaceNode,  # noqa: E402
+                                       TupleAccessAndDrop)
 from guppylang_internals.tys.ty import InputFlags, StructType, TupleType  # noqa: E402
 
 
@@ -87,6 +88,14 @@ class Dumper:
             fty = get_type(n.func)
             flags = [[InputFlags.Inout in i.flags, bool(i.ty.droppable)] for i in fty.inputs]
             return ["N", [self.expr(n.func), ["C", flags, [self.expr(a) for a in n.args]]]]
+        if isinstance(n, FieldAccessAndDrop):
+            # projection of a value that is not a place: the value is visited, the other fields
+            # are dropped
+            ok = all(bool(f.ty.droppable) for f in n.struct_ty.fields if f.name != n.field.name)
+            return ["D", self.expr(n.value), ok]
+        if isinstance(n, TupleAccessAndDrop):
+            ok = all(bool(ty.droppable) for i, ty in enumerate(n.tuple_ty.element_types) if i != n.index)
+            return ["D", self.expr(n.value), ok]
         special = "visit_" + type(n).__name__
         if special in lc.BBLinearityChecker.__dict__:
             self.unmodelled.append(special)
